@@ -30,3 +30,63 @@ package util
 
 //@ func AsUint16
 //@ ensures result == (val > 65535 ? 65535 : (val < 0 ? 0 : val))
+
+// ---------------------------------------------------------------- Chars
+// A Chars value holds either bytes (inBytes, every byte < 0x80) or runes (the
+// slice header is then reinterpreted as []rune: same array, offset, length).
+
+//@ spec func clen(c *Chars) int = len(c.slice)
+//@ spec func at(c *Chars, i int) rune = c.inBytes ? rune(c.slice[i]) : asRunes(c.slice)[i]
+//@ spec func validChars(c *Chars) bool = len(c.slice) < 2147483648 && (c.inBytes ? forall(k, 0, len(c.slice), c.slice[k] < 128) : forall(k, 0, len(c.slice), 0 <= asRunes(c.slice)[k] && asRunes(c.slice)[k] <= 1114111))
+
+//@ func Chars.IsBytes
+//@ requires chars != nil
+//@ ensures result == chars.inBytes
+
+//@ func Chars.Bytes
+//@ requires chars != nil
+//@ ensures result == chars.slice
+
+//@ func Chars.optionalRunes
+//@ requires chars != nil
+//@ ensures chars.inBytes ==> result == nil
+//@ ensures !chars.inBytes ==> result == asRunes(chars.slice)
+
+//@ func Chars.Get
+//@ requires chars != nil && 0 <= i && i < clen(chars)
+//@ ensures result == at(chars, i)
+
+//@ func Chars.Length
+//@ requires chars != nil
+//@ ensures result == clen(chars)
+
+//@ func Chars.LeadingWhitespaces
+//@ requires chars != nil
+//@ ensures 0 <= result && result <= clen(chars)
+//@ ensures forall(k, 0, result, isSpace(at(chars, k)))
+//@ ensures result < clen(chars) ==> !isSpace(at(chars, result))
+//@ loop 1
+//@   invariant 0 <= i && i <= clen(chars) && whitespaces == i
+//@   invariant forall(k, 0, i, isSpace(at(chars, k)))
+//@   decreases clen(chars) - i
+
+//@ func Chars.TrailingWhitespaces
+//@ requires chars != nil
+//@ ensures 0 <= result && result <= clen(chars)
+//@ ensures forall(k, clen(chars) - result, clen(chars), isSpace(at(chars, k)))
+//@ ensures result < clen(chars) ==> !isSpace(at(chars, clen(chars) - result - 1))
+//@ loop 1
+//@   invariant -1 <= i && i < clen(chars) && whitespaces == clen(chars) - 1 - i
+//@   invariant forall(k, i + 1, clen(chars), isSpace(at(chars, k)))
+//@   decreases i + 1
+
+//@ func Chars.CopyRunes
+//@ requires chars != nil && 0 <= from && from + len(dest) <= clen(chars)
+//@ requires chars.inBytes || !sameArray(dest, chars.slice)
+//@ modifies dest[*]
+//@ ensures forall(k, 0, len(dest), dest[k] == old(at(chars, from + k)))
+//@ ensures init(dest, 0, len(dest))
+//@ track init int32
+//@ loop 1
+//@   invariant forall(k, 0, iter, dest[k] == at(chars, from + k))
+//@   invariant init(dest, 0, iter)
